@@ -146,6 +146,13 @@ def check_mixed_classes(costs, rot):
     """A population that mixes the individual classes of the framework (results of two algorithms ranked together, stored
     designs next to fresh offspring): ranks by definition."""
     from .c20 import make_as, CLASSES
+    from artap.individual import Individual
+    from artap.algorithm_NSGAII import IndividualNSGAII
+    from artap.algorithm_genetic import IndividualEpsMOEA
+    from artap.algorithm_swarm import IndividualSwarm
+    for cls in (Individual, IndividualNSGAII, IndividualEpsMOEA, IndividualSwarm):
+        if "counter" in cls.__dict__:          # every id counter the tree has starts afresh (as in a new process)
+            cls.counter = 0
     pop = []
     for j, c in enumerate(costs):
         ind = make_as(CLASSES[(j + rot) % len(CLASSES)], [0.0])
